@@ -540,7 +540,7 @@ Proof.
   unfold out_run.
   assert (Ha : forallb attr_okb (opt_attr [] s_style (tr_style r) ++ out_attrs (tr_attrs r)) = true).
   { rewrite forallb_app, opt_attr_okb, out_attrs_okb by reflexivity. reflexivity. }
-  destruct (tr_text r) as [|c t]; cbn [text_kids]; [apply good_elems | apply good_text]; try exact Ha; reflexivity.
+  destruct (tr_txt r) as [|c t]; cbn [text_kids]; [apply good_elems | apply good_text]; try exact Ha; reflexivity.
 Qed.
 Lemma out_lines_good ls : forallb good (out_lines ls) = true.
 Proof.
